@@ -523,6 +523,10 @@ class BaseNetQASMConnection(abc.ABC):
 
         subroutine = self._builder.subrt_compile_subroutine(protosubroutine)
 
+        # The pending operations are now in `subroutine`: later flushes must not
+        # declare/return the same arrays and registers again.
+        self._builder._reset()
+
         return subroutine
 
     def commit_protosubroutine(
